@@ -1,5 +1,6 @@
 (* C20 — governance decisions need strictly more than two-thirds of the voting power. *)
 From Minter Require Import Base Govern GovernFacts.
+From Minter Require PowerTable PowerTableFacts.
 From Coq Require Import ZArith List.
 Import ListNotations.
 Open Scope Z_scope.
@@ -24,5 +25,37 @@ Proof. exact decide_spec. Qed.
 Example C20_two_of_three_rejected : decide 3 [2] = 0 /\ halted 3 2 = false /\ decide 300 [201; 99] = 1.
 Proof. vm_compute. auto. Qed.
 
+(* "of the voting power of the validators present in that block": the table the decisions read holds exactly the
+   validators recorded as having signed the last block and not being dropped; a validator that is absent, missing
+   from the commit info, or being dropped changes neither the total nor any vote sum, whether or not it voted *)
+Theorem C20_only_present_validators_count : forall l1 v l2 voters,
+  PowerTable.in_table v = false ->
+  PowerTable.total_power (l1 ++ v :: l2) = PowerTable.total_power (l1 ++ l2) /\
+  PowerTable.voted_power (l1 ++ v :: l2) voters = PowerTable.voted_power (l1 ++ l2) voters.
+Proof. intros l1 v l2 voters H. destruct (PowerTableFacts.not_present_irrelevant l1 v l2 voters H) as (_ & A & B). split; assumption. Qed.
+
+Theorem C20_table_members : forall l v,
+  In v (PowerTable.table l) <-> In v l /\ PowerTable.v_status v = 1 /\ PowerTable.v_drop v = false.
+Proof. exact PowerTableFacts.table_members. Qed.
+
+(* the composition: a halt takes effect iff the present validators that voted hold more than 2/3 of the present power *)
+Theorem C20_halt_by_present_power : forall l voters,
+  halted (PowerTable.total_power l) (PowerTable.voted_power l voters) = true <->
+  3 * PowerTable.voted_power l voters > 2 * PowerTable.total_power l.
+Proof. intros. apply C20_halt_iff. Qed.
+
+Example C20_newcomer_does_not_count :
+  (* A, B, C signed; D (stake 20000) joined the application's list but is not in the commit info yet: A, B, D vote *)
+  let l := [ {| PowerTable.v_key := 1; PowerTable.v_stake := 10000; PowerTable.v_status := 1; PowerTable.v_drop := false |};
+             {| PowerTable.v_key := 2; PowerTable.v_stake := 10000; PowerTable.v_status := 1; PowerTable.v_drop := false |};
+             {| PowerTable.v_key := 3; PowerTable.v_stake := 15000; PowerTable.v_status := 1; PowerTable.v_drop := false |};
+             {| PowerTable.v_key := 4; PowerTable.v_stake := 20000; PowerTable.v_status := 0; PowerTable.v_drop := false |} ] in
+  PowerTable.total_power l = 35000 /\ PowerTable.voted_power l [1; 2; 4] = 20000 /\
+  halted (PowerTable.total_power l) (PowerTable.voted_power l [1; 2; 4]) = false.
+Proof. vm_compute. auto. Qed.
+
 Print Assumptions C20_halt_iff.
 Print Assumptions C20_decide_iff.
+Print Assumptions C20_only_present_validators_count.
+Print Assumptions C20_table_members.
+Print Assumptions C20_halt_by_present_power.
